@@ -47,6 +47,20 @@ class _TupleStrip(ast.NodeTransformer):
 
     def visit_Call(self, node):
         self.generic_visit(node)
+        # f(**{'k': v}) is f(k=v); f(**{}) is f()
+        if any(k.arg is None and isinstance(k.value, ast.Dict) and all(
+                isinstance(x, ast.Constant) and isinstance(x.value, str) and
+                x.value.isidentifier() for x in k.value.keys) for k in node.keywords):
+            kws = []
+            for k in node.keywords:
+                if k.arg is None and isinstance(k.value, ast.Dict) and all(
+                        isinstance(x, ast.Constant) and isinstance(x.value, str) and
+                        x.value.isidentifier() for x in k.value.keys):
+                    kws += [ast.keyword(arg=x.value, value=v)
+                            for x, v in zip(k.value.keys, k.value.values)]
+                else:
+                    kws.append(k)
+            node.keywords = kws
         # f(*((a,) + rest)) is f(a, *rest); f(*(A + B)) is f(*A, *B)
         if any(isinstance(a, ast.Starred) and isinstance(a.value, (ast.BinOp, ast.Tuple))
                for a in node.args):
